@@ -193,17 +193,21 @@ def generate(config="pinned", repo=None, extra_units=(), siblings=False):
     tr = CONFIGS[config]
     fg_hash = sha(open(FACTGEN, "rb").read())
     jobs = []  # (unit label, file to parse, funcroot, flags)
+    # private headers next to the sources (src/*.h) have no unit of their own: every source unit also dumps the functions
+    # it sees from them (duplicates across units are merged by file and line when the program is loaded)
+    srcdir = os.path.join(repo, "src")
+    private_hdrs = sorted(os.path.join(srcdir, n) for n in os.listdir(srcdir) if n.endswith(".h")) if os.path.isdir(srcdir) else []
     for f, fl in units:
-        jobs.append((os.path.relpath(f, repo), f, f, tr(fl)))
+        jobs.append((os.path.relpath(f, repo), f, ":".join([f] + private_hdrs), tr(fl)))
     if siblings:
         have = {j[0] for j in jobs}
         for s in SIBLING_UNITS:
             p = os.path.join(repo, s)
             if s not in have and os.path.exists(p):
-                jobs.append((s, p, p, tr(base_flags)))
+                jobs.append((s, p, ":".join([p] + private_hdrs), tr(base_flags)))
     incdir = os.path.join(repo, "include")
     headers = sorted(n for n in os.listdir(incdir) if n.endswith(".h"))
-    key = sha(fg_hash, source_digest(repo), config, json.dumps([j[3] for j in jobs]),
+    key = sha(fg_hash, source_digest(repo), config, json.dumps([j[3] for j in jobs]), json.dumps([j[2] for j in jobs]),
               json.dumps(sorted(extra_units)), str(siblings), repo)
     outdir = os.path.join(CACHE, "facts-" + key)
     done = os.path.join(outdir, "MANIFEST.json")
